@@ -53,7 +53,11 @@ type Space struct {
 	NNT, NSh int
 	HasRoot  bool
 	Min, Max int
-	cache    map[int][]*Expr
+	// FixedShared are shared sub-parser bodies attached to EVERY grammar of the space (not
+	// enumerated, not counted in the size); they are numbered after the NSh enumerated ones.
+	FixedShared     []*Expr
+	FixedSharedMemo []bool
+	cache           map[int][]*Expr
 }
 
 func (sp *Space) leaves() []*Expr {
@@ -67,7 +71,7 @@ func (sp *Space) leaves() []*Expr {
 	for i := 0; i < sp.NNT; i++ {
 		l = append(l, Ref(i))
 	}
-	for i := 0; i < sp.NSh; i++ {
+	for i := 0; i < sp.NSh+len(sp.FixedShared); i++ {
 		l = append(l, Shared(i))
 	}
 	return l
@@ -165,13 +169,13 @@ func (sp *Space) Each(f func(idx int64, g *Grammar)) {
 func (sp *Space) assemble(comp []*Expr) *Grammar {
 	// reachability on templates first (cheap), clone only when accepted
 	nts := comp[:sp.NNT]
-	shs := comp[sp.NNT : sp.NNT+sp.NSh]
+	shs := append(append([]*Expr{}, comp[sp.NNT:sp.NNT+sp.NSh]...), sp.FixedShared...)
 	var root *Expr
 	if sp.HasRoot {
 		root = comp[len(comp)-1]
 	}
 	seenN := make([]bool, sp.NNT)
-	seenS := make([]bool, sp.NSh)
+	seenS := make([]bool, len(shs))
 	var visit func(e *Expr)
 	visit = func(e *Expr) {
 		switch e.K {
@@ -210,9 +214,10 @@ func (sp *Space) assemble(comp []*Expr) *Grammar {
 	for _, b := range nts {
 		g.NTs = append(g.NTs, b.Clone())
 	}
-	for _, b := range shs {
+	for i, b := range shs {
 		g.Shared = append(g.Shared, b.Clone())
-		g.SharedMemo = append(g.SharedMemo, false)
+		fixed := i - sp.NSh
+		g.SharedMemo = append(g.SharedMemo, fixed >= 0 && fixed < len(sp.FixedSharedMemo) && sp.FixedSharedMemo[fixed])
 	}
 	if root != nil {
 		g.Root = root.Clone()
